@@ -48,6 +48,10 @@ def run_actor(ctx, prop):
                 if not l.startswith("{") or '"summary"' in l:
                     continue
                 d = json.loads(l)
+                if d.get("mode") == "hang":
+                    ctx.violations.append({"what": "C11: the actor did not finish a schedule within %d ms (livelock inside the limiter task)" % d["limit_ms"], "input": d["call"]})
+                    ctx.broken[:] = [b for b in ctx.broken if "exited with 3" not in b]
+                    continue
                 nd += 1
                 answers = [a for p in d["answers"] for a in p if a]
                 if (not d["ok"] and "panicked" in d["what"]) or any(a.get("err") == "dead" for a in answers):
@@ -65,6 +69,11 @@ def run_actor(ctx, prop):
             if not l.startswith("{"):
                 continue
             d = json.loads(l)
+            if d.get("mode") == "hang":
+                ctx.violations.append({"what": "%s: the actor did not finish a schedule within %d ms (a request is neither answered nor failing: livelock inside the limiter task)" % (prop, d["limit_ms"]),
+                                       "input": d["call"]})
+                ctx.broken[:] = [b for b in ctx.broken if "exited with 3" not in b]
+                continue
             if d.get("summary"):
                 schedules += d["schedules"]
                 if r[1] == "dfs":
